@@ -358,8 +358,10 @@ def mon_loop(tr):
         if fin != bool(holds):
             return ("stop-decision", f"loop iteration {n}: stopping conditions holding: {holds} (1 budget, 2 max_iter, 3 mesh, 4 stall; func_count {pr[2]['fc']}/{O['maxfe']}, "
                                      f"iterations {piter}/{O['maxiter']}, mesh size {pr[2]['mesh']} vs {O['tolmesh']}, stall {stall}) but is_finished = {fin}")
-        if fin and msg != max(holds):
-            return ("message-precedence", f"loop iteration {n}: stopping conditions holding: {holds}; the message is number {msg}, expected {max(holds)}")
+        if fin and msg not in holds:
+            # C03 asks that the message names a condition that HOLDS; which one is named when several hold at once is not specified
+            # (a reordering of the tests is reported through the broken `C03_termination_is_source`, without a failing input)
+            return ("message-untrue", f"loop iteration {n}: stopping conditions holding: {holds}; the message is number {msg}, which does not hold")
         exp_it = piter + (1 if (did_poll and not fin) else 0)
         if pr[1]["poll_iteration"] != exp_it:
             return ("iteration-counter", f"loop iteration {n}: poll iteration {piter} -> {pr[1]['poll_iteration']}, expected {exp_it} (polled={did_poll}, finished={fin})")
@@ -456,8 +458,58 @@ def directed_specs(regions, seed):
     return out
 
 
+# Which clauses of mon_loop are claims of WHICH property's text (a hit is then a concrete violation of that property).  Every other clause
+# restates a rule of the model (when a search / poll runs, when the stalling tests are evaluated, the iteration counter, the history record,
+# which message is chosen when several stopping conditions hold): a hit there means the tie between model and code is broken, not that the
+# property is violated - it is reported as a failed correspondence obligation, and the property's own monitors look for a failing input.
+PROPERTY_KEYS = {
+    "C13": {"poll-update"},                       # doubled after a sufficient improvement (up to the cap), halved / quartered otherwise
+    "C03": {"poll-budget", "message-untrue"},     # no target call beyond the budget; the message names a condition that holds
+    "C04": set(),
+}
+
+
+def mon_loop_property(pid):
+    """mon_loop restricted to the clauses property `pid` states (for replays)"""
+    def mon(tr):
+        r = mon_loop(tr)
+        return r if r and r[0] in PROPERTY_KEYS.get(pid, set()) else None
+    mon.__name__ = "mon_loop_" + pid
+    return mon
+
+
+def apply_mon_loop(ctx, out, broken):
+    """mon_loop over the traces: concrete violation for the clauses the property states, broken tie for the model-level ones"""
+    mine = PROPERTY_KEYS.get(ctx.pid, set())
+    model_hits = []
+    hits = 0
+    for tr, _ in out:
+        if "harness_exc" in tr:
+            continue
+        try:
+            r = mon_loop(tr)
+        except Exception as ex:
+            ctx.notes.append(f"monitor mon_loop crashed on {tr['spec']}: {ex!r}")
+            ctx.oblige("monitor:mon_loop", "harness", False, repr(ex))
+            continue
+        if not r:
+            continue
+        key, what = r
+        if key in mine:
+            hits += 1
+            ctx.violate(key, what, dict(kind="run", spec=tr["spec"], fault=tr.get("fault"), how="cd /verif && ./check %s --replay <this file>" % ctx.pid))
+            break
+        model_hits.append((key, what, tr["spec"]))
+    ok = ctx.oblige("correspondence:loop_rules", "correspondence", not model_hits,
+                    "the loop rules of the model restated on the observables hold on every recorded run" if not model_hits else str(model_hits[:2])[:600])
+    if not ok:
+        broken.append(("correspondence:loop_rules", f"{len(model_hits)} recorded runs do not follow the loop rules of the model, e.g. {model_hits[0][0]}: {model_hits[0][1]} "
+                       f"(spec {model_hits[0][2]})"))
+    return hits
+
+
 def loop_is_broken(broken):
-    return any(b[0].startswith("translate:loop") or b[0] == "coq_build" or "loop_src" in b[0] for b in broken)
+    return any(b[0].startswith("translate:loop") or b[0] == "coq_build" or "loop_src" in b[0] or "loop_rules" in b[0] for b in broken)
 
 
 def search_loop(ctx, broken, mons):
@@ -470,7 +522,7 @@ def search_loop(ctx, broken, mons):
     ctx.notes.append(f"loop search: regions {regions or ['any']}, {len(specs)} directed runs")
     out = [(tr, None) for tr in S.traces([(s, None) for s in specs], "loopdir")]
     out += [(tr, None) for tr in getattr(ctx, "bad_traces", [])[:6]]
-    for mon in list(mons) + [mon_loop]:
+    for mon in list(mons):
         if R.apply_monitor(ctx, out, mon) > 0:
             return True
-    return False
+    return apply_mon_loop(ctx, out, []) > 0
